@@ -41,6 +41,8 @@ structure Chan where
   cfg : Cfg
   alive : Bool := false           -- the connection task exists (receivers of the queues alive)
   viewHas : Bool := false         -- `handle.peers` contains the peer
+  gen : Nat := 0                  -- number of the current stream (each `reopen` makes new queues)
+  viewGen : Nat := 0              -- the stream whose sink `handle.peers` holds
   clogged : Bool := false
   syncQ : List Msg := []
   asyncQ : List Msg := []
@@ -68,14 +70,14 @@ structure Chan where
 /-- `send_sync_notification`: one non-blocking step. Second component: a `ForceClose` command was sent. -/
 def syncSend (c : Chan) (m : Msg) : Chan × SendRes × Bool :=
   if !c.viewHas then (c, .ok, false)
-  else if !c.alive then (c, .noconn, false)
+  else if !c.alive || c.viewGen != c.gen then (c, .noconn, false)     -- the sink's queue is closed
   else if c.syncQ.length ≥ c.cfg.syncCap then ({ c with clogged := true }, .clogged, !c.clogged)
   else ({ c with syncQ := c.syncQ ++ [m], accS := c.accS ++ [m] }, .ok, false)
 
 /-- `send_async_notification`, first poll. -/
 def asyncSend (c : Chan) (m : Msg) : Chan × SendRes :=
   if !c.viewHas then (c, .nopeer)
-  else if !c.alive then (c, .noconn)
+  else if !c.alive || c.viewGen != c.gen then (c, .noconn)
   else if c.waiting.isEmpty && c.asyncQ.length < c.cfg.asyncCap then
     ({ c with asyncQ := c.asyncQ ++ [m], accA := c.accA ++ [m] }, .ok)
   else ({ c with waiting := c.waiting ++ [m] }, .waiting)
@@ -208,12 +210,14 @@ def pollHandle (c : Chan) : Chan × List String :=
   let view := c.evQ.foldl (fun v e => if e = "opened" then true else if e = "closed" then false else v) c.viewHas
   let clogged := if c.evQ.contains "closed" then false else c.clogged
   let got := if view then c.notifQ else []
-  ({ c with viewHas := view, clogged := clogged, evQ := [], notifQ := [], userGot := c.userGot ++ got },
+  ({ c with viewHas := view, viewGen := if c.evQ.contains "opened" then c.gen else c.viewGen,
+            clogged := clogged, evQ := [], notifQ := [], userGot := c.userGot ++ got },
     c.evQ ++ got.map fun m => s!"r{m.seq}")
 
 /-- A new stream (new queues, new pipes) after the previous task ended. -/
 def reopen (c : Chan) : Chan :=
-  { cfg := c.cfg, alive := true, viewHas := c.viewHas, clogged := c.clogged, waiting := c.waiting,
+  { cfg := c.cfg, alive := true, viewHas := c.viewHas, gen := c.gen + 1, viewGen := c.viewGen, clogged := c.clogged,
+    waiting := c.waiting,
     notifQ := c.notifQ, evQ := c.evQ ++ ["opened"], userGot := [] }
 
 end Litep2pVerif.Chan
